@@ -261,7 +261,7 @@ def geometry_pass(ck, hb, tooldir, rng, quick):
         cond = 1 if (kind == "Head1" or n % 2 == 0) else 0
         for fmt in range(4):
             gcases.append("c15 9 %d %d %d %d" % (fmt, gid, cond, 1 if (kind in ("nested", "Head1") and n % 2 == 1) else 0))
-    io = run_harness_bounded(hb, gcases, ck.workdir, tooldir, 40.0)
+    io = run_harness_bounded(ck, hb, gcases, ck.workdir, tooldir, phase_budget(ck, gcases, 40.0))
     mcases = []; expect = []; nmesh = 0
     for c, i in zip(gcases, io):
         w = [int(x) for x in c.split()[1:]]; fmt, gid = w[1], w[2]
@@ -323,7 +323,8 @@ def size_pass(ck, hb, tooldir, rng, quick):
                 for fmt in range(4):
                     cases.append(("%s with %d triangles, %d vertices" % (nm, len(ts), len(vs)), fmt,
                                   "c15 " + " ".join(map(str, [1, fmt, 1] + mesh_wire(vs, ts) + [0]))))
-    io = run_harness_bounded(hb, [c for _, _, c in cases], ck.workdir, tooldir, 45.0)
+    lines = [c for _, _, c in cases]
+    io = run_harness_bounded(ck, hb, lines, ck.workdir, tooldir, phase_budget(ck, lines, 45.0))
     bad = 0
     for (what, fmt, c), i in zip(cases, io):
         if i == "CRASH skipped": continue
@@ -520,42 +521,70 @@ def rebuild(line, ts_new, which=0):
         mid = mesh_wire(vs, ts_new); rest = w[p:]
     return "c15 " + " ".join(map(str, w[:hdr] + mid + rest))
 
-def run_harness_bounded(hb, cases, workdir, tooldir, budget, per_case=0.25, floor=15.0, max_timeouts=2):
-    """Runs the harness over the cases with a hard wall-clock bound whatever the implementation does.
-    One invocation gets min(remaining budget, floor + per_case * #cases) seconds.  A case in flight when the time runs out is
-    answered 'CRASH timeout' (reported as a violation '(time limit)'); a crash is 'CRASH <rc>'; after max_timeouts timeouts or when the
-    budget is used up the remaining cases are answered 'CRASH skipped' (not judged)."""
+def phase_budget(ck, cases, quick_cap, model_time=None):
+    """wall-clock budget of one harness phase.  quick tier: a fixed cap (the failing-tree bound of the quick tier depends on it).
+    thorough tier: at least 5x the quick cap, and scaled with the work: 20x what the extracted model needed for the same cases
+    when that is known, else 30 s + 60 us per character of case text (a 65536-triangle mesh is ~6 MB)."""
+    if ck.tier != "thorough": return quick_cap
+    chars = sum(len(c) for c in cases)
+    return max(5.0 * quick_cap, 20.0 * model_time if model_time else 0.0, 30.0 + 6e-5 * chars)
+
+def run_harness_once(hb, cases, workdir, tooldir, limit):
     e = dict(os.environ); e["OMP_NUM_THREADS"] = "1"; e["OPENBLAS_NUM_THREADS"] = "1"; e["OM_TOOLS"] = tooldir
+    cf = os.path.join(workdir, "bcases.txt")
+    with open(cf, "w") as fh: fh.write("\n".join(cases) + "\n")
+    try:
+        p = subprocess.run([hb, cf], stdout=subprocess.PIPE, stderr=subprocess.PIPE, timeout=limit, env=e, cwd=workdir)
+        rc = p.returncode; so = p.stdout
+    except subprocess.TimeoutExpired as te:
+        rc = None; so = te.stdout or b""
+    out = so.decode(errors="replace").split("\n")
+    if out and out[-1] == "": out.pop()
+    if rc is None and out and not so.endswith(b"\n"): out.pop()      # partial last line
+    return rc, out[:len(cases)]
+
+def run_harness_bounded(ck, hb, cases, workdir, tooldir, budget, max_timeouts=2):
+    """Runs the harness over the cases with a hard wall-clock bound whatever the implementation does.
+    A case in flight when the budget runs out is RE-RUN ALONE with a generous limit (quick 180 s - less when the run is already
+    long -, thorough 900 s): a slow first attempt on a loaded machine is a note in the evidence, not a finding.  Only a case that
+    does not finish alone either is answered 'CRASH timeout' (reported as '(time limit)').  A crash is 'CRASH <rc>'.  After
+    max_timeouts confirmed timeouts the remaining cases are answered 'CRASH skipped' (not judged)."""
+    quick = ck.tier != "thorough"
+    if quick: max_timeouts = 1          # one confirmed hang ends the phase in the quick tier (overall bound on a failing tree)
     deadline = time.time() + budget
     outs = []; start = 0; timeouts = 0
     while start < len(cases):
-        left = deadline - time.time()
-        if left <= 1.0 or timeouts >= max_timeouts:
+        if timeouts >= max_timeouts:
             outs += ["CRASH skipped"] * (len(cases) - start); break
         n = len(cases) - start
-        cf = os.path.join(workdir, "bcases.txt")
-        with open(cf, "w") as fh: fh.write("\n".join(cases[start:]) + "\n")
-        to = min(left, floor + per_case * n)
-        try:
-            p = subprocess.run([hb, cf], stdout=subprocess.PIPE, stderr=subprocess.PIPE, timeout=to, env=e, cwd=workdir)
-            rc = p.returncode; so = p.stdout
-        except subprocess.TimeoutExpired as te:
-            rc = None; so = te.stdout or b""
-        out = so.decode(errors="replace").split("\n")
-        if out and out[-1] == "": out.pop()
-        if rc is None and out and not so.endswith(b"\n"): out.pop()      # partial last line
-        out = out[:n]
+        left = deadline - time.time()
+        if left <= 1.0:
+            # the phase budget is used up although nothing hung for certain: give the rest one more budget (loaded machine)
+            deadline = time.time() + budget; left = budget
+            ck.notes.append("harness phase exceeded its budget of %.0f s with %d cases left; continued" % (budget, n))
+        rc, out = run_harness_once(hb, cases[start:], workdir, tooldir, left)
         outs += out
         if rc == 0 and len(out) == n: break
         if len(out) < n:
-            if rc is None: outs.append("CRASH timeout"); timeouts += 1
+            k = start + len(out)
+            if rc is None:
+                lim = 900.0 if not quick else max(60.0, min(180.0, 280.0 - (time.time() - ck.t0)))
+                t1 = time.time(); rc2, out2 = run_harness_once(hb, [cases[k]], workdir, tooldir, lim)
+                if rc2 is not None and len(out2) == 1:
+                    outs.append(out2[0])
+                    ck.notes.append("a case did not finish within the phase budget (%.0f s) and finished alone in %.1f s: %s" % (budget, time.time() - t1, short(cases[k])[:120]))
+                    deadline = max(deadline, time.time() + budget / 2)
+                elif rc2 is None:
+                    outs.append("CRASH timeout"); timeouts += 1
+                else:
+                    outs.append("CRASH %d" % rc2)
             else: outs.append("CRASH %d" % rc)
         start = len(outs)
     return outs
 
 def run_both(ck, hb, cases, tooldir, budget=60.0):
     mo = core.run_model(cases)
-    io = run_harness_bounded(hb, cases, ck.workdir, tooldir, budget)
+    io = run_harness_bounded(ck, hb, cases, ck.workdir, tooldir, budget)
     return mo, io
 
 def judge(ck, line, m, i, cid):
@@ -707,8 +736,8 @@ def main(replay=None):
     for idx, budget in ((small, 70.0), (large, 50.0)):
         if not idx: continue
         sub = [cases[k] for k in idx]
-        io_s = run_harness_bounded(hb, sub, ck.workdir, tooldir, budget)
-        mo_s = core.run_model(sub)
+        t1 = time.time(); mo_s = core.run_model(sub); mt = time.time() - t1
+        io_s = run_harness_bounded(ck, hb, sub, ck.workdir, tooldir, phase_budget(ck, sub, budget, mt))
         for k, m_, i_ in zip(idx, mo_s, io_s): mo[k] = m_; io[k] = i_
     dist = {}; tagdist = {}; nontriv = set(); mism = []; relfail = []; errpaths = 0; files_cmp = 0
     for cid, (c, lab, m, i) in enumerate(zip(cases, labels, mo, io)):
@@ -770,7 +799,7 @@ def main(replay=None):
                      "%s: the implementation does not behave like the model proved in Properties_C15.v (%s) on %s" % (name, text[:300], short(c2)),
                      dict(kind="correspondence", cases=[c2], original=[c], model=[m[:2000]], impl=[i[:2000]], replay_cmd="./check C15 --replay <this file>"),
                      found_input=True)
-    if not replay:
+    if not replay and not (quick and ck.violations and time.time() - ck.t0 > 200):
         nsize = size_pass(ck, hb, tooldir, rng, quick)      # large meshes last: small failing cases are reported first
     # refuted theorems must reproduce on the real code (else the model is wrong)
     if not replay:
